@@ -110,6 +110,24 @@ def probe_ctor(ctx, payload):
         ids.add(r.id)
         made.append(r)
         ctx.case([model_name, how, repr(mu), repr(sg), name], falsy)
+    # ids must be unique whatever the state of the GLOBAL random module: applications re-seed it (random.seed(s) per season
+    # or per test) and fork; the state is saved and restored around this block
+    import random as _random
+
+    st = _random.getstate()
+    try:
+        seen = {}
+        for rnd in range(3):
+            _random.seed(12345)
+            for how in ("rating", "create"):
+                r = model.rating(1.0, 1.0) if how == "rating" else model.create_rating([1.0, 1.0])
+                ctx.ev("ctor/id-unique-after-reseed")
+                if r.id in seen or r.id in ids:
+                    ctx.violation("ctor/id-unique-after-reseed", "ctor", payload, dict(id=r.id, first_seen=seen.get(r.id), round=rnd, how=how),
+                                  model_name, "reseed")
+                seen[r.id] = (rnd, how)
+    finally:
+        _random.setstate(st)
     # deepcopy of FRESH objects, taken before the monitor (or anything else) has read any attribute of the original:
     # a lazily initialised field must still be preserved by the copy
     for how, mu, sg, name in payload["items"][:6]:
